@@ -14,6 +14,19 @@ sys.path.insert(0, os.path.dirname(HERE))
 from harness import common  # noqa: E402
 
 
+def library_exception(ex):
+    """'<file>:<function>' of the innermost frame inside the library under test if the exception came out of a call INTO the library
+    made by the harness (a library frame lies below the last harness frame); None for a failure of the harness itself"""
+    repo = os.path.realpath(os.environ.get("AOVERIF_REPO", "/repo")) + os.sep + "aotools" + os.sep
+    frames = traceback.extract_tb(ex.__traceback__)
+    last_harness = max([i for i, f in enumerate(frames) if os.path.realpath(f.filename).startswith(os.path.dirname(HERE) + os.sep)], default=-1)
+    libs = [f for f in frames[last_harness + 1:] if os.path.realpath(f.filename).startswith(repo)]
+    if not libs:
+        return None
+    f = libs[-1]
+    return "%s:%s" % (os.path.relpath(os.path.realpath(f.filename), os.path.dirname(repo.rstrip(os.sep))), f.name)
+
+
 def main():
     ap = argparse.ArgumentParser()
     ap.add_argument("prop")
@@ -33,7 +46,21 @@ def main():
                 return mod.replay(rec)
             seed, tier = int(rec.get("seed", seed)), rec.get("tier", tier)   # default: re-run the recorded run
         chk = common.Check(a.prop, tier, seed)
-        mod.run(chk)
+        try:
+            mod.run(chk)
+        except Exception as ex:
+            lib = library_exception(ex)
+            if lib is None:
+                raise
+            # the LIBRARY raised on an input the generators produce (none of them raises on the unchanged tree): that is a
+            # concrete failing input, not a harness crash; the rest of this run's oracle was not executed
+            tb = traceback.format_exc()
+            traceback.print_exc()
+            chk.fail("exception:%s:%s" % (lib, type(ex).__name__),
+                     "the library raised %s: %s in %s on a generated in-domain input (last case: %s)"
+                     % (type(ex).__name__, str(ex)[:200], lib, str(getattr(chk, "last_case", None))[:300]),
+                     {"kind": "library-exception", "traceback": tb[-3000:], "last_case": str(getattr(chk, "last_case", None))[:2000]})
+            chk.notes.append("run aborted by a library exception; remaining oracle sections were not executed")
         rc = chk.finish()
     except Exception:
         traceback.print_exc()
